@@ -50,6 +50,7 @@ pub enum Kind {
     Flag,
 }
 
+#[derive(Clone)]
 pub struct OptD {
     pub long: Option<&'static str>,
     pub short: Option<&'static str>,
@@ -58,16 +59,21 @@ pub struct OptD {
     /// value domain of sweep 1, quick tier
     pub dom: &'static [Tok],
 }
+#[derive(Clone)]
 pub struct PosD {
     pub required: bool,
     pub ty: Ty,
     pub dom: &'static [Tok],
 }
+#[derive(Clone)]
 pub struct SubD {
     pub required: bool,
     pub cmds: Vec<(&'static str, Option<Grammar>)>,
 }
+#[derive(Clone)]
 pub struct Grammar {
+    /// near-miss spellings of this level's names (not declared): extra tokens of sweep 2
+    pub alts: Vec<&'static str>,
     /// pre-order index of this struct in the shape's tree (index into the help texts)
     pub id: usize,
     pub opts: Vec<OptD>,
@@ -169,6 +175,8 @@ pub struct Shape {
     pub parse: fn(&[&'static UnixStr]) -> Outcome,
     /// help text of every struct of the tree, pre-order (same numbering as `Grammar::id`)
     pub helps: fn() -> Vec<String>,
+    /// "" normally; "help-advertised-" when the grammar carries the spellings read from the help text
+    pub key_prefix: &'static str,
 }
 
 // ---------------------------------------------------------------------------
@@ -793,16 +801,16 @@ fn check_err_render(sh: &Shape, helps: &[String], want_level: Option<usize>, arg
 fn check_roundtrip(sh: &Shape, helps: &[String], args: &[&'static UnixStr], want: &M, optlike: bool, r: &mut Report) {
     r.eval();
     r.nontrivial_unique();
-    let key = |k: &str| format!("C20:{}:{k}", sh.name);
+    let key = |k: &str| if k == "panic" { format!("C20:{}:{k}", sh.name) } else { format!("C20:{}:{}{k}", sh.name, sh.key_prefix) };
     let out = (sh.parse)(args);
     match out {
         Outcome::Panic(p) => {
             r.outcome("rt-panic");
-            r.violation(&key("panic"), format!("{} panicked on {}: {p}", sh.name, brief(args)), case_json(sh, "roundtrip", args));
+            r.violation(&key("panic"), format!("{} panicked on {}: {p}", sh.name, brief(args)), case_json(sh, if sh.key_prefix.is_empty() { "roundtrip" } else { "help-roundtrip" }, args));
         }
         Outcome::Ok(m, left) => {
             if left > 0 {
-                r.violation(&key("ok-arguments-left-unread"), format!("{} returned Ok on {} leaving {left} arguments unread", sh.name, brief(args)), case_json(sh, "roundtrip", args));
+                r.violation(&key("ok-arguments-left-unread"), format!("{} returned Ok on {} leaving {left} arguments unread", sh.name, brief(args)), case_json(sh, if sh.key_prefix.is_empty() { "roundtrip" } else { "help-roundtrip" }, args));
             }
             if &m == want {
                 r.outcome(if optlike { "rt-ok-optionlike-value" } else { "rt-ok" });
@@ -811,7 +819,7 @@ fn check_roundtrip(sh: &Shape, helps: &[String], args: &[&'static UnixStr], want
                 r.violation(
                     &key(if optlike { "roundtrip-optionlike-value" } else { "roundtrip-mismatch" }),
                     format!("{} parsed {} to {m:?}, rendered from {want:?}", sh.name, brief(args)),
-                    case_json(sh, "roundtrip", args),
+                    case_json(sh, if sh.key_prefix.is_empty() { "roundtrip" } else { "help-roundtrip" }, args),
                 );
             }
         }
@@ -825,7 +833,7 @@ fn check_roundtrip(sh: &Shape, helps: &[String], args: &[&'static UnixStr], want
                     brief(args),
                     text.as_ref().map(|t| t.lines().last().unwrap_or("").to_string())
                 ),
-                case_json(sh, "roundtrip", args),
+                case_json(sh, if sh.key_prefix.is_empty() { "roundtrip" } else { "help-roundtrip" }, args),
             );
             check_err_render(sh, helps, None, args, "roundtrip", &text, debug_ok, r);
         }
@@ -889,6 +897,11 @@ fn alphabet(g: &Grammar) -> Vec<Vec<u8>> {
             for (c, _) in &s.cmds {
                 push_unique(&mut v, c.as_bytes());
             }
+        }
+    }
+    for l in &lv {
+        for a in &l.alts {
+            push_unique(&mut v, a.as_bytes());
         }
     }
     for t in [&b"--nope"[..], b"-h", b"--help"] {
@@ -1089,6 +1102,118 @@ fn help_texts(sh: &Shape, r: &mut Report) -> Vec<String> {
 }
 
 // ---------------------------------------------------------------------------
+// differential oracle between the two outputs of the derive: the names the help text
+// advertises and the names the generated matcher accepts
+
+#[derive(Default, Debug, PartialEq)]
+struct Advertised {
+    /// (short, long) per option entry, in order
+    opts: Vec<(Option<String>, Option<String>)>,
+    cmds: Vec<String>,
+}
+
+/// Read the option and command names out of one help text (sections after the `Usage:` line;
+/// an entry line is indented by 2 or 6, a documentation line by 8).
+fn advertised(help: &str) -> Advertised {
+    let mut a = Advertised::default();
+    let mut section = "";
+    let mut seen_usage = false;
+    for line in help.lines() {
+        if !seen_usage {
+            seen_usage = line.starts_with("Usage:");
+            continue;
+        }
+        match line {
+            "Commands:" | "Options:" | "Arguments:" => {
+                section = line;
+                continue;
+            }
+            _ => {}
+        }
+        let indent = line.len() - line.trim_start_matches(' ').len();
+        let body = line.trim();
+        if body.is_empty() || indent >= 8 {
+            continue;
+        }
+        match section {
+            "Commands:" if indent == 2 => a.cmds.push(body.split(' ').next().unwrap_or("").to_string()),
+            "Options:" if body.starts_with('-') => {
+                let mut short = None;
+                let mut long = None;
+                for part in body.split(", ") {
+                    if part.starts_with("--") {
+                        long = Some(part.to_string());
+                    } else {
+                        short = Some(part.to_string());
+                    }
+                }
+                a.opts.push((short, long));
+            }
+            _ => {}
+        }
+    }
+    a
+}
+
+fn leak(s: &str) -> &'static str {
+    Box::leak(s.to_string().into_boxed_str())
+}
+
+/// Compare, level by level, the advertised names with the declared ones.  Returns the grammar respelled
+/// as the help text has it (when the entries correspond one to one).
+fn help_grammar(sh: &Shape, helps: &[String], r: &mut Report) -> Option<Grammar> {
+    fn respell(g: &mut Grammar, helps: &[String], diffs: &mut Vec<String>, shape_ok: &mut bool) {
+        let adv = advertised(&helps[g.id]);
+        let declared = Advertised {
+            opts: g.opts.iter().map(|o| (o.short.map(String::from), o.long.map(String::from))).collect(),
+            cmds: g.sub.iter().flat_map(|s| s.cmds.iter().map(|c| c.0.to_string())).collect(),
+        };
+        if adv != declared {
+            diffs.push(format!("level {}: help advertises {adv:?}, declared {declared:?}", g.id));
+            let same_shape = adv.opts.len() == declared.opts.len()
+                && adv.cmds.len() == declared.cmds.len()
+                && adv.opts.iter().zip(&declared.opts).all(|(x, y)| x.0.is_some() == y.0.is_some() && x.1.is_some() == y.1.is_some());
+            if same_shape {
+                for (o, (s, l)) in g.opts.iter_mut().zip(&adv.opts) {
+                    o.short = s.as_deref().map(leak);
+                    o.long = l.as_deref().map(leak);
+                }
+                if let Some(sd) = &mut g.sub {
+                    for (c, name) in sd.cmds.iter_mut().zip(&adv.cmds) {
+                        c.0 = leak(name);
+                    }
+                }
+            } else {
+                *shape_ok = false;
+            }
+        }
+        if let Some(sd) = &mut g.sub {
+            for (_, inner) in &mut sd.cmds {
+                if let Some(ig) = inner {
+                    respell(ig, helps, diffs, shape_ok);
+                }
+            }
+        }
+    }
+    let mut g = sh.g.clone();
+    let mut diffs = Vec::new();
+    let mut shape_ok = true;
+    respell(&mut g, helps, &mut diffs, &mut shape_ok);
+    r.eval();
+    if diffs.is_empty() {
+        r.outcome("help-names-equal-declared");
+        // the grammar spelled after the help text is still handed out: sweep 1 is run on it as well, so that
+        // "every advertised name is accepted" does not rest on the hand-written declaration
+        return Some(g);
+    }
+    r.outcome("help-names-differ");
+    r.violation(
+        &format!("C20:{}:help-names-differ-from-declared", sh.name),
+        format!("{}: the names in the help text are not the declared ones (which sweeps 1 and 2 hold the matcher to): {}", sh.name, diffs.join("; ")),
+        json!({"shape": sh.name, "sweep": "help"}),
+    );
+    shape_ok.then_some(g)
+}
 
 enum Work {
     Roundtrip(usize, u64, u64),
@@ -1098,6 +1223,8 @@ enum Work {
     Ladder(usize),
     /// sweep 4: index into CAUSE_WAYS
     Cause(usize),
+    /// index into the list of shapes respelled after their help text: sweep 1 with the ADVERTISED names
+    HelpRoundtrip(usize, u64, u64),
 }
 
 /// Sweep 3: one token of EVERY length 0..=max (plain, option-like, multi-byte, Debug-escaped bytes) alone, after each
@@ -1331,8 +1458,24 @@ fn c20(args: &Args) -> Report {
     for w in 0..CAUSE_WAYS.len() {
         work.push(Work::Cause(w));
     }
+    // help vs matcher: the names read out of the help text are put to the matcher (sweep 1, quick domains)
+    let mut respelled: Vec<(Shape, usize)> = Vec::new();
+    for (si, sh) in shapes.iter().enumerate() {
+        if helps[si].is_empty() {
+            continue;
+        }
+        if let Some(g) = help_grammar(sh, &helps[si], &mut pre) {
+            respelled.push((Shape { name: sh.name, g, parse: sh.parse, helps: sh.helps, key_prefix: "help-advertised-" }, si));
+            let size = Space::new(&respelled.last().unwrap().0.g, false, 2).size();
+            let nchunks = size.clamp(1, 8);
+            for c in 0..nchunks {
+                work.push(Work::HelpRoundtrip(respelled.len() - 1, c, nchunks));
+            }
+        }
+    }
     let mut r = par_items(work.len(), args.seed, |i| match work[i] {
         Work::Cause(w) => cause_chunk(CAUSE_WAYS[w], args.thorough),
+        Work::HelpRoundtrip(k, c, n) => roundtrip_chunk(&respelled[k].0, &helps[respelled[k].1], false, c, n),
         Work::Roundtrip(si, c, n) => roundtrip_chunk(&shapes[si], &helps[si], args.thorough, c, n),
         Work::Grammar(si, len, f) => grammar_chunk(&shapes[si], &helps[si], len, f),
         Work::Ladder(si) => ladder_chunk(&shapes[si], &helps[si], args.thorough),
@@ -1352,6 +1495,9 @@ fn c20(args: &Args) -> Report {
         Sweep 3: one token of every length 0..=300 (thorough 1100) in four byte patterns, alone / in value position after each option literal / after a valid \
         token, same oracle: straddles the fixed 128-byte cause buffer of the error path at every offset (the family has field types whose FromStr::Err \
         echoes the text before an offending character and the character itself through {}, {:?}, Formatter::write_char, nested format_args! and padding). \
+        Help vs matcher: the option and command names are read out of every help text and must equal the declared ones level by level; \
+        sweep 1 (quick domains) is repeated with the grammar spelled after the help text (keys help-advertised-*); near-miss spellings of every name (as written in the source, ASCII-only \
+        case mapping, missing dash) are tokens of sweep 2 and must not be recognised. \
         Sweep 4: ArgParseError::new_cause_str / new_cause_fmt called directly, every way of writing (one str, pieces, char argument plain / Debug / padded / \
         first / doubled, write_char, nested arguments) x prefix of every byte length 0..=140 (thorough 300) in 1-, 2- and 3-byte characters x six \
         characters of 1..4 bytes x three suffixes: no panic, the error renders and starts with the help text."
@@ -1385,6 +1531,18 @@ fn replay(v: &Value, r: &mut Report) {
     let name = v["shape"].as_str().unwrap_or("");
     let Some(sh) = shapes.iter().find(|s| s.name == name) else { panic!("unknown shape {name}") };
     let helps = help_texts(sh, r);
+    let respelled;
+    let sh = if v["sweep"].as_str() == Some("help-roundtrip") || v["sweep"].as_str() == Some("help") {
+        match help_grammar(sh, &helps, r) {
+            Some(g) => {
+                respelled = Shape { name: sh.name, g, parse: sh.parse, helps: sh.helps, key_prefix: "help-advertised-" };
+                &respelled
+            }
+            None => sh,
+        }
+    } else {
+        sh
+    };
     let args: Vec<&'static UnixStr> =
         v["args"].as_array().map(|a| a.iter().map(|x| intern(&parse_shown(x.as_str().unwrap_or("")))).collect()).unwrap_or_default();
     println!("replaying shape={name} args={}", brief(&args));
@@ -1397,12 +1555,14 @@ fn replay(v: &Value, r: &mut Report) {
     let mut fl = Flags::default();
     let acct = scan(&sh.g, &bytes, &mut fl);
     println!("declared grammar: {acct:?} {fl:?}");
-    if v["sweep"].as_str() == Some("roundtrip") {
+    if matches!(v["sweep"].as_str(), Some("roundtrip" | "help-roundtrip")) {
         if let (Ok(a), false) = (&acct, fl.open) {
             check_roundtrip(sh, &helps, &args, &model_of(&sh.g, a), fl.optlike_value, r);
         }
     }
-    check_grammar(sh, &helps, &args, r);
+    if sh.key_prefix.is_empty() {
+        check_grammar(sh, &helps, &args, r);
+    }
     for v in r.violations.values() {
         println!("VIOLATED {}: {}", v.key, v.desc);
     }
